@@ -20,7 +20,7 @@ import inferno
 from inferno.neural import (LinearDense, LinearDirect, LinearLateral, Conv2D, DeltaCurrent, DeltaPlusCurrent,
                             SingleExponentialCurrent, DoubleExponentialCurrent)
 
-from mc.common import Tally
+from mc.common import Tally, Guard
 from mc.pool import run_shards
 
 ID = "C06"
@@ -157,8 +157,12 @@ def shard(conn, skind, dt, maxk, fractional, T, F=2, only_assign=None, only_clea
                 if skind == "deltaplus":
                     inj = (torch.full(xs[t].shape, 0.25 * (t + 1)),)
                 try:
-                    od = cd(xs[t], *inj)
-                    ou = cu(xs[t], *inj)
+                    xd, xu = xs[t].clone(), xs[t].clone()
+                    g = Guard(xd, xu)
+                    od = cd(xd, *inj)
+                    ou = cu(xu, *inj)
+                    # inputs untouched, and no synapse history aliases them (overwritten before the delayed reads)
+                    g.release(tally, f"input-mutated:{conn}:{skind}", {**case, "step": t})
                 except Exception as ex:
                     tally.violation(f"exception:forward:{conn}:{skind}:{type(ex).__name__}", {**case, "step": t}, repr(ex))
                     break
